@@ -702,28 +702,40 @@ def r_ret(ctx):
         ctx.ob("R-RET", "PEP.%s::dual value from the reconstruction" % root.name, False, "the result of %s is not stored once in a local" % rec.name, loc(root, root))
         return
     dual_name = calls[0].targets[0].id
+    # the option parameter: compared with the literals 'dual' / 'primal' somewhere in the root (or named by the public caller's dispatch)
+    from ..absint import literal_test, bool_decider
     mode_param = None
-    for s in flow.stmts_of(root, ast.If):
-        arms, orelse = flow.closed_chain(s)
-        lits = {}
-        for t, body in arms:
-            if isinstance(t, ast.Compare) and len(t.ops) == 1 and isinstance(t.ops[0], ast.Eq) and isinstance(t.left, ast.Name) \
-                    and is_const(t.comparators[0]) and t.comparators[0].value in ("dual", "primal"):
+    for t in ast.walk(root):
+        if isinstance(t, ast.Compare) and len(t.ops) == 1 and isinstance(t.left, ast.Name) and t.left.id in params_of(root):
+            c0 = t.comparators[0]
+            vals = [c0.value] if isinstance(c0, ast.Constant) else [e.value for e in getattr(c0, "elts", []) if isinstance(e, ast.Constant)]
+            if any(v in ("dual", "primal") for v in vals):
                 mode_param = t.left.id
-                rets = [b for b in body if isinstance(b, ast.Return)]
-                lits[t.comparators[0].value] = src(rets[0].value) if rets else None
-        if lits:
-            solve_val = _first_solve_value(root)
-            ok_d = lits.get("dual") == dual_name
-            ctx.ob("R-RET", "PEP.%s::dual mode" % root.name, ok_d,
-                   "mode 'dual' returns the result of %s" % rec.name if ok_d else "mode 'dual' returns `%s`, not the reconstructed constant `%s`" % (lits.get("dual"), dual_name),
-                   loc(root, s))
-            ok_p = lits.get("primal") == solve_val
-            ctx.ob("R-RET", "PEP.%s::primal mode" % root.name, ok_p,
-                   "mode 'primal' returns the solver value" if ok_p else "mode 'primal' returns `%s`, not the solver value `%s`" % (lits.get("primal"), solve_val), loc(root, s))
-            break
-    else:
+    if mode_param is None:
         ctx.ob("R-RET", "PEP.%s::mode dispatch" % root.name, False, "no dispatch on 'dual' / 'primal' found", loc(root, root))
+    else:
+        solve_val = _first_solve_value(root)
+        rets = sorted([r for r in ast.walk(root) if isinstance(r, ast.Return)], key=lambda r: r.lineno)
+
+        def returned_for(value):
+            dec = bool_decider(lambda t: literal_test(t, mode_param, value))
+            for r in rets:
+                if any(dec(t) is None for t, br, _ in flow.conditions_guarding(r)):
+                    continue            # an exit that depends on something else (no finite optimum, ...)
+                if all(dec(t) is None or dec(t) == br for t, br, _ in flow.effective_guards(r, stop=root)):
+                    return r
+            return None
+        rd, rp = returned_for("dual"), returned_for("primal")
+        ok_d = rd is not None and rd.value is not None and dotted(rd.value) == dual_name
+        ctx.ob("R-RET", "PEP.%s::dual mode" % root.name, ok_d,
+               "mode 'dual' returns the result of %s" % rec.name if ok_d else
+               "mode 'dual' returns `%s`, not the reconstructed constant `%s`" % (src(rd.value) if rd is not None and rd.value is not None else None, dual_name),
+               loc(root, rd if rd is not None else root))
+        ok_p = rp is not None and rp.value is not None and dotted(rp.value) == solve_val
+        ctx.ob("R-RET", "PEP.%s::primal mode" % root.name, ok_p,
+               "mode 'primal' returns the solver value" if ok_p else
+               "mode 'primal' returns `%s`, not the solver value `%s`" % (src(rp.value) if rp is not None and rp.value is not None else None, solve_val),
+               loc(root, rp if rp is not None else root))
     # the value returned when the caller says nothing is the certified one: the mode parameter defaults to 'dual' in the solve root and in its public caller
     if mode_param is not None:
         pep = common.pep_class(repo)
@@ -960,6 +972,28 @@ def r_heurcall(ctx):
            "the heuristic constraint is built from the first optimum and the user's tolerance" if ok else
            "prepare_heuristic receives (%s), expected (%s, %s)" % (", ".join(src(a) for a in prep[0].args) if prep else "nothing", v, tol[0] if tol else "?"),
            loc(root, prep[0] if prep else root))
+    # the tolerance and the regularisation are the caller's numbers: no replacement that depends on their truthiness (0 is a legitimate value)
+    for p0 in tol + reg:
+        for fn0 in [root] + [m for m in common.pep_class(repo).methods.values() if m is not root and p0 in params_of(m)
+                             and any(isinstance(c, ast.Call) and call_name(c) == root.name for c in ast.walk(m))]:
+            for s0 in flow.stmts_of(fn0):
+                tg0 = s0.targets if isinstance(s0, ast.Assign) else ([s0.target] if isinstance(s0, ast.AugAssign) else [])
+                if not any(isinstance(t, ast.Name) and t.id == p0 for t in tg0):
+                    continue
+                v0 = s0.value
+                why = None
+                if isinstance(v0, ast.BoolOp) and isinstance(v0.op, ast.Or) and dotted(v0.values[0]) == p0:
+                    why = "`%s`" % norm_stmt(s0)[:70]
+                elif isinstance(v0, ast.IfExp) and dotted(v0.test) == p0:
+                    why = "`%s`" % norm_stmt(s0)[:70]
+                else:
+                    for t, br, _ in flow.conditions_guarding(s0):
+                        tt = t.operand if isinstance(t, ast.UnaryOp) and isinstance(t.op, ast.Not) else t
+                        if dotted(tt) == p0 or (isinstance(tt, ast.Compare) and dotted(tt.left) == p0 and is_const(tt.comparators[0], 0)):
+                            why = "`%s` under `%s`" % (norm_stmt(s0)[:50], src(t))
+                if why:
+                    ctx.ob("R-HEURCALL", "PEP.%s::%s as given" % (fn0.name, p0), False,
+                           "%s replaces a value of `%s` that is falsy: an explicit 0 silently becomes the default" % (why, p0), loc(fn0, s0))
     heur = [c for c in ast.walk(root) if isinstance(c, ast.Call) and call_name(c) == "heuristic"]
     for c in heur:
         a = c.args[0] if c.args else None
